@@ -28,7 +28,10 @@ def values(n):
     generic = st.floats(-1e150, 1e150, allow_nan=False, allow_infinity=False)
     small = st.sampled_from([0.0, -0.0, 1e-300, -1e-300, 1.0, 0.1, 1 / 3.0, 5e-324, 123456789.123456789])
     mid = st.floats(-1e3, 1e3, allow_nan=False)
-    return st.lists(st.one_of(generic, small, mid, mid), min_size=n, max_size=n)
+    whole = st.one_of(st.integers(-9, 9), st.integers(-10 ** 6, 10 ** 6)).map(float)      # integer-valued parameters
+    return st.one_of(st.lists(st.one_of(generic, small, mid, mid), min_size=n, max_size=n),
+                     st.lists(st.one_of(generic, small, mid, mid), min_size=n, max_size=n),
+                     st.lists(whole, min_size=n, max_size=n))
 
 
 def strat_sample(tier):
@@ -42,6 +45,8 @@ def strat_sample(tier):
             'formats': st.lists(st.sampled_from(['pkl', 'json', 'csv']), min_size=1, max_size=3),
             # key order of the outputs dict handed to the constructor (None: parameter-name order, then the discrepancy)
             'outputs_order': st.one_of(st.none(), st.integers(0, 1000)),
+            # whole-number columns stored as integer arrays (integer-valued parameters, e.g. a randint prior)
+            'int_cols': st.sampled_from([False, False, True]),
         })
     return st.tuples(st.lists(st.sampled_from(PN), min_size=1, max_size=4, unique=True), st.integers(1, 60)).flatmap(build)
 
@@ -58,6 +63,12 @@ def run_sample(case):
     from elfi.methods.results import Sample
     names, n = case['names'], case['n']
     cols = {nm: np.array(c, dtype=float) for nm, c in zip(names, case['cols'])}
+    if case.get('int_cols'):
+        for nm in names:
+            c = cols[nm]
+            if np.all(c == np.round(c)) and np.all(np.abs(c) < 2 ** 52) and not np.any(np.signbit(c) & (c == 0)):
+                cols[nm] = c.astype(np.int64)
+    has_int = any(v.dtype.kind == 'i' for v in cols.values())
     outputs = dict(cols)
     if case['extra'] is not None:
         outputs['d'] = np.array(case['extra'], dtype=float)
@@ -94,7 +105,7 @@ def run_sample(case):
             if not ok:
                 raise Violation('C16:interval', '%s: the %.3f interval end %r is not a weighted quantile of the stored column (%s); %s' % (nm, alpha, q, why, ctx))
     tmp = tempfile.mkdtemp(prefix='c16-', dir=os.environ.get('VERIF_TMP'))
-    labels = []
+    labels = ['integer-typed-column'] if has_int else []
     try:
         for fmt in case['formats']:
             fn = os.path.join(tmp, 'sample.' + fmt)
